@@ -154,7 +154,9 @@ pub struct GenState {
 const CAPS: [usize; 14] = [0, 1, 3, 4, 7, 8, 14, 15, 28, 29, 56, 57, 112, 113];
 
 pub fn gen_config(rng: &mut Rng, prof: &Profile, overhead: usize) -> (Config, GenState, usize) {
-    let large = prof.large_pct > 0 && rng.chance(prof.large_pct as u64, 100);
+    // every profile sees a few caches of hundreds of entries (a bug that needs, say, more than 255
+    // entries must not be visible to C07/C20 only); C07/C20 add runs with thousands
+    let large = (prof.large_pct > 0 && rng.chance(prof.large_pct as u64, 100)) || rng.chance(1, 160);
     // hasher
     let mode = match rng.below(12) {
         0..=3 => HashMode::Good,
@@ -267,7 +269,14 @@ pub fn gen_config(rng: &mut Rng, prof: &Profile, overhead: usize) -> (Config, Ge
     } else {
         (universe, max_size, mode, steps, kheaps, vheaps, ctor)
     };
-    let cfg = Config { ctor, mode, salt, max_size, universe, prefill: if large { prof.large_prefill } else { 0 }, prefill_vh: vheaps[0] };
+    let prefill = if !large {
+        0
+    } else if prof.large_prefill > 0 {
+        prof.large_prefill
+    } else {
+        260 + rng.below(700) as u32
+    };
+    let cfg = Config { ctor, mode, salt, max_size, universe, prefill, prefill_vh: vheaps[0] };
     let fresh_pct = if fifo { 100 } else if churn { *rng.pick(&[0u32, 50, 90, 100]) } else { *rng.pick(&[0u32, 0, 0, 5, 30]) };
     let gs = GenState { kheaps, vheaps, weights, recent_gone: Vec::new(), two_caches, refuse_pct: prof.refuse_pct, natural_oom: prof.natural_oom, fresh_next: universe.max(1) + 1000, fresh_pct, fixed_sizes: fifo };
     (cfg, gs, steps)
